@@ -559,11 +559,34 @@ func (st *wstate) runLifetime(i int, l *scen.Lifetime) {
 		}
 	}
 	lf := model.NewLife(l)
+	// a faulted call that changed nothing on disk (every mutating operation it attempted
+	// failed without writing a byte, or it attempted none) leaves the files as they were
+	changedDisk := map[ck]bool{}
+	for _, op := range rep.Ops {
+		if op.Mut && (op.Err == "" || op.N > 0) {
+			changedDisk[ck{op.Call, op.Exec}] = true
+		}
+	}
+	cleanFailure := func(k ck, ev *scen.CallEvent) bool {
+		if changedDisk[k] || !ev.Done {
+			return false
+		}
+		o, bad := model.Decode(ev.Signals)
+		return bad == "" && o == model.Failed
+	}
+	cleanFail := map[ck]bool{}
+	for ci := range rep.Calls {
+		ev := &rep.Calls[ci]
+		k := ck{ev.CallID, ev.Exec}
+		if faulted[k] && cleanFailure(k, ev) {
+			cleanFail[k] = true
+		}
+	}
 	if tasks && anyFault {
 		// concurrent calls are judged task by task, not in real-time order: whatever a
 		// faulted call touched is unpredicted for every call of this lifetime
 		for _, op := range rep.Ops {
-			if faulted[ck{op.Call, op.Exec}] && op.Call >= 0 && op.Path != "" && !strings.HasSuffix(op.Kind, "dir") && op.Kind != "mkdirall" {
+			if faulted[ck{op.Call, op.Exec}] && !cleanFail[ck{op.Call, op.Exec}] && op.Call >= 0 && op.Path != "" && !strings.HasSuffix(op.Kind, "dir") && op.Kind != "mkdirall" {
 				solo := false
 				if c := lf.Call(op.Call); c != nil {
 					solo = scen.Standalone(c.API)
@@ -644,6 +667,13 @@ func (st *wstate) runLifetime(i int, l *scen.Lifetime) {
 				}
 			}
 			lf.Tally[obs]++
+			if cleanFail[key] {
+				// the call failed and wrote nothing: the disk is what it was, the slot's ordinal
+				// is consumed ("a failing call still consumes its ordinal"), later calls are
+				// judged as usual
+				out.Stats.Probes["faulted_call_failed_cleanly"]++
+				continue
+			}
 			st.d.NoteDirtyCall(ex)
 			continue
 		}
